@@ -3,6 +3,7 @@ package props
 import (
 	"bytes"
 	"fmt"
+	"math"
 
 	structform "github.com/elastic/go-structform"
 
@@ -52,13 +53,61 @@ func init() {
 				"small-scope hypothesis: trees larger than the node bound, scalars outside the boundary alphabet and strings outside the atom alphabet are not explored",
 				"map-derived objects are compared as unordered member sets (Go map iteration order is not owned)",
 			},
-			Families: func(tier string) []engine.Family { return streamFamilies(tier, c01Body) },
+			Families: func(tier string) []engine.Family {
+				sweepFloat32 = c01SweepFloat32
+				defer func() { sweepFloat32 = nil }()
+				return streamFamilies(tier, c01Body)
+			},
 			Bounds: func(tier string) map[string]interface{} {
-				return map[string]interface{}{"max_tree_nodes": tierPick(tier, 4, 5), "leaf_alphabet": tierPick(tier, 3, 5), "string_atoms_max": tierPick(tier, 2, 3)}
+				return map[string]interface{}{"max_tree_nodes": tierPick(tier, 4, 6), "leaf_alphabet": tierPick(tier, 3, 4), "string_atoms_max": tierPick(tier, 2, 3), "float32_sweep": tierPick(tier, "alphabet only", "all 2^32 bit patterns x 3 codecs")}
 			},
 			Require: []string{"roundtrips_compared"},
 		})
 	})
+}
+
+// c01SweepFloat32 round-trips the 2^24 float32 bit patterns with the given top byte through one codec.
+func c01SweepFloat32(x *engine.Exec, cd *Codec, hi uint32) {
+	x.Case(fmt.Sprintf("float32-sweep|%s|%02x", cd.Name, hi), true)
+	x.Sample(func() interface{} {
+		return map[string]interface{}{"codec": cd.Name, "float32_bit_patterns": fmt.Sprintf("%#02x000000..%#02xffffff", hi, hi)}
+	})
+	var buf bytes.Buffer
+	rec := model.NewRecorder()
+	n := int64(0)
+	for lo := uint32(0); lo < 1<<24; lo++ {
+		bits := hi<<24 | lo
+		f := math.Float32frombits(bits)
+		buf.Reset()
+		rec.Evs = rec.Evs[:0]
+		enc := cd.NewEnc(&buf, 0)
+		err := enc.OnFloat32(f)
+		nonFinite := f != f || math.IsInf(float64(f), 0)
+		if cd == codecJSON && nonFinite {
+			if err == nil {
+				x.Violation("json.encoder", "nonfinite-not-refused", "float32:sweep", fmt.Sprintf("bits %#x", bits), map[string]interface{}{"bits": bits})
+				return
+			}
+			continue
+		}
+		if err == nil {
+			err = cd.Parse(buf.Bytes(), rec)
+		}
+		ok := err == nil && len(rec.Evs) == 1
+		if ok {
+			got, _ := model.ValueOf(rec.Evs)
+			ok = model.Equal(model.F32V(bits), got, cd.Mode)
+		}
+		if !ok {
+			x.Violation(cd.Name+".roundtrip", "wrong-value", "float32:sweep", fmt.Sprintf("float32 bits %#x: err %v, events %s, bytes %x", bits, err, model.EventsString(rec.Evs), buf.Bytes()), map[string]interface{}{"bits": bits, "codec": cd.Name})
+			return
+		}
+		n++
+	}
+	x.Count("+evaluations", n)
+	x.Count("+nontrivial", n)
+	x.Count("roundtrips_compared", n)
+	x.Count("float32_patterns_swept", n)
 }
 
 func nontrivialStream(c *StreamCase) bool {
